@@ -9,7 +9,7 @@ from spec import frames as F
 
 LEVEL = "exploration"
 RULE = ("for every field row (31 rows of BDS 4,0 4,4 4,5 5,0 5,3 6,0 incl. the deprecated alt40mcp/alt40fms aliases): all raw values (<= 2^12) x status x sign under "
-        "backgrounds {zeros, every other MB bit set, 0x55/0xAA, seeded} in DF20 and DF21 carriers, plus bg-1 (every "
+        "backgrounds {zeros, every other MB bit set, 0x55/0xAA, seeded} in DF20 and DF21 carriers (every second decode preceded by the receiver pipeline df/icao/typecode/infer on the same frame), plus bg-1 (every "
         "other MB, header and parity bit) on a 16-value subset (all values in thorough); wind44/temp44 tuples, cap17 all "
         "24 single capability bits + patterns, ovc10; identity of the pyModeS.commb re-exports; distinct = (field, "
         "status, sign, raw)")
@@ -35,9 +35,15 @@ def carrier(mb, k):
     return F.long_ap(df, h27, mb, [0x406B90, 0xFFFFFF, 0][k % 3])
 
 
-def judge_row(name, st, sg, raw, msg):
+def judge_row(name, st, sg, raw, msg, pipeline=False):
     row = CF.BY_NAME[name]
     exp = row.expected(st, sg, raw)
+    if pipeline:
+        # what a receiver loop does with a frame before it reaches a field decoder (shared helpers, possible caches)
+        call(pms.df, msg)
+        call(pms.icao, msg)
+        call(pms.common.typecode, msg)
+        call(pms.bds.infer, msg, True)
     r = call(fn_of(row), msg)
     if r[0] != "ok":
         return "%s:raises:%s" % (name, r[1])
@@ -69,9 +75,10 @@ def w_row(arg):
                     k += 1
                     msg = carrier(mb0 | (bg & ~fmask & ONES), k)
                     acc.n += 1
-                    s = judge_row(name, st, sg, raw, msg)
+                    pl = bool(k % 2)
+                    s = judge_row(name, st, sg, raw, msg, pl)
                     if s:
-                        acc.bad(s, {"kind": "row", "name": name, "f": [st, sg, raw], "msg": msg})
+                        acc.bad(s + (":after_df_icao_infer" if pl else ""), {"kind": "row", "name": name, "f": [st, sg, raw], "msg": msg, "pipeline": pl})
                 if bg1:
                     base = int(carrier(mb0, 0), 16)
                     for mask in other_bits(112, list(range(1, 6)) + [32 + b for b in fbits]):
@@ -225,8 +232,8 @@ def run(ctx):
 
 def replay(case):
     if case["kind"] == "row":
-        s = judge_row(case["name"], *case["f"], case["msg"])
-        return [(s, case), (s + ":bg1", case)] if s else []
+        s = judge_row(case["name"], *case["f"], case["msg"], case.get("pipeline", False))
+        return [(s, case), (s + ":bg1", case), (s + ":after_df_icao_infer", case)] if s else []
     if case["sub"] == "vector" and len(case["p"]) == 3:
         s = judge_misc("vector", tuple(case["p"]))
         return [(s, case)] if s else [(x, c) for x, c in w_misc(0)["viols"] if x.startswith("oracle")]
